@@ -173,6 +173,17 @@ def run_check(chk, argv=None):
         seen_keys.add(key)
         try:
             obs = chk.replay(cex)
+            if not obs and cex.get("soft"):
+                # rounding-dependent counterexample: the model leaves the direction of the real rounding
+                # error open, so the other candidate inputs found for the same query are replayed as well
+                for alt in cex.get("alternatives") or []:
+                    c2 = dict(cex, inputs=alt)
+                    obs = chk.replay(c2)
+                    replayed += 1
+                    if obs:
+                        cex["first_candidate"] = cex["inputs"]
+                        cex["inputs"] = alt
+                        break
         except BaseException:
             obs = None
             harness_errors.append((cex.get("case"), "replay crashed:\n" + traceback.format_exc()))
@@ -312,6 +323,10 @@ def run_pinned(fn, cfg=None):
     return out[0]
 
 
+class NotPinned(Exception):
+    """The value of a pinned run is not determined by the model (a rounding-dependent model choice was made)."""
+
+
 def concrete(x):
     """Python value of a constant symbolic value (after a pinned run)."""
     import z3
@@ -330,6 +345,8 @@ def concrete(x):
             assert r == "sat"
             k = engine.model_value(m, x.t)
             r2, _m2 = engine.cur().check_sat([x.t != k])
+            if r2 != "unsat" and engine.cur().approx:
+                raise NotPinned(engine.cur().approx)
             assert r2 == "unsat", "pinned value is not unique"
             return k
         assert z3.is_int_value(v), "not constant: %s" % v
